@@ -621,6 +621,7 @@ func (r *c15Run) exec(op *c15Op, last bool) {
 		}
 		hashWant := r.hashWant(op, ht)
 		adp, probe := r.mgr.Select(op.Hash != 0, ht, op.Code)
+		r.monCarried(op, before, adp != nil && probe)
 		if adp == nil {
 			lbl = append(lbl, r.selectedNone(op, last))
 			break
@@ -746,6 +747,19 @@ func (r *c15Run) selectedNone(op *c15Op, last bool) string {
 	r.always("call", s)
 	op.Txt = "call: no adapter"
 	return fmt.Sprintf("([SelNone], %s)", r.obs(s, last))
+}
+
+// a queued probe is carried by the NEXT call, whatever its routing kind (plain, mod-hash, consistent-hash): otherwise the
+// probe is never made, its dedupe entry never cleared and the endpoint never comes back (C15_never_none: probe head first)
+func (r *c15Run) monCarried(op *c15Op, before c15Snap, probe bool) {
+	if before.q == 0 || len(r.mgr.Registry()) == 0 {
+		return
+	}
+	kind := [...]string{"plain", "mod-hash", "consistent-hash"}[op.Hash%3]
+	r.classes["probe-queued-at-"+kind+"-call"] = true
+	if !probe {
+		r.fail("failover/queued-probe-not-carried-by-next-call", fmt.Sprintf("%d probe(s) are queued (dedupe set %b) but the next call (%s routing, code %d) was not used as the probe: the blocked endpoint is not probed and cannot come back", before.q, before.pset, kind, op.Code))
+	}
 }
 
 // monitors at the moment an adapter has been selected for a call
